@@ -566,6 +566,10 @@ func (c *compiler) setQualname() {
 
 // Compile a function
 func (c *compiler) compileFunc(compilerScope compilerScopeType, Ast ast.Ast, Args *ast.Arguments, DecoratorList []ast.Expr, Returns ast.Expr) {
+	// Load decorators onto stack - they must end up below everything
+	// MAKE_FUNCTION consumes
+	c.Exprs(DecoratorList)
+
 	newC := c.newCompilerScope(compilerScope, Ast, "")
 	newC.Code.Argcount = int32(len(Args.Args))
 	newC.Code.Kwonlyargcount = int32(len(Args.Kwonlyargs))
@@ -605,9 +609,6 @@ func (c *compiler) compileFunc(compilerScope compilerScopeType, Ast ast.Ast, Arg
 		num_annotations++ // include the tuple
 		c.LoadConst(annotations)
 	}
-
-	// Load decorators onto stack
-	c.Exprs(DecoratorList)
 
 	// Make function or closure, leaving it on the stack
 	posdefaults := uint32(len(Args.Defaults))
